@@ -775,7 +775,8 @@ impl RADAU {
                 }
 
                 // Sophisticated step size control
-                if (x + hnew / quot1 - xend) * posneg >= 0.0 {
+                // (the slight stretch absorbs a remainder of rounding size into this step)
+                if (x + 1.0001 * hnew / quot1 - xend) * posneg >= 0.0 {
                     h = xend - x;
                     last = true;
                 } else {
